@@ -1,6 +1,7 @@
 """Scenario helpers shared by the operational properties: decoding the independent
 reader's snapshot, reference integrity, format conformance, snapshot comparison."""
 import hashlib
+import copy
 import json
 import re
 
@@ -235,12 +236,15 @@ def rand_history(rng, nsteps, crashes=True, deletes=True, crash_kinds=("crash", 
 
     set_source(tree)
     nb = 0
+    backed_up = []
     last_crashed = False
     for _ in range(nsteps):
         r = rng.random()
         if r < 0.35 or nb == 0:
             if rng.random() < 0.8:
                 tree, _ = gen.mutate_tree(rng, tree, pool)
+            tree = gen.avoid_unseen_edit(copy.deepcopy(tree), backed_up)
+            backed_up.append(tree)
             set_source(tree)
             plan = None
             if crashes and rng.random() < 0.3:
